@@ -561,6 +561,31 @@ theorem mutesI_next_call_exact (msOf : String → MatcherSets) (env : Env) (now 
   obtain ⟨g1, g2, _⟩ := mutes_correct msOf env s4 c'' now' ls' hi4 hm4 h4
   exact ⟨g2, g1⟩
 
+/-- The hypotheses above are met by real operations.  The scenario of the seeded change under
+    the code's own discipline: from any reachable instance (`Inv`), a `Set` — any input, a fresh
+    uuid — completes between the version read and the re-query of one `Mutes` call.  The cache
+    the call leaves is valid for the store *with* the new silence (so the next call matches it),
+    and the call's verdict is the brute-force verdict of the store before or after the `Set`. -/
+theorem mutesI_during_set (msOf : String → MatcherSets) (env : Env) (ret : Int) (maxSil : Nat) (σ : Sys) (now : Int)
+    (h : Inv msOf env σ now) (inp : SilIn) (newId : String) (big : Bool) (r : SetOk)
+    (hok : inp.sets = msOf newId) (hfresh : lookup σ.store.st newId = none)
+    (hstart : ∀ p, lookup σ.store.st inp.id = some p → getState p.sil now = .active →
+        canUpdate p.sil (silOfIn inp now) now = true → inp.start.getD now ≤ now)
+    (hset : set env ret maxSil now σ.store inp newId big = .ok r) (ls : LabelSet) :
+    let out := mutesI false env now ls σ.store r.store r.store σ.cache σ.cache
+    CacheInv msOf env r.store out.cache now ∧
+    ((out.muted = true ↔ ∃ id, activeMatching env σ.store now ls id = true) ∨
+     (out.muted = true ↔ ∃ id, activeMatching env r.store now ls id = true)) := by
+  intro out
+  obtain ⟨h01, hm1⟩ := set_step msOf env ret maxSil now σ.store inp newId big r h.idx h.mi hok hfresh hset
+  have hi1 := indexInv_set env ret maxSil now σ.store inp newId big r h.idx hset
+  have hc' := cacheInv_step msOf env σ.store r.store σ.cache now h.cache h01
+  exact ⟨mutesI_cacheInv msOf env now ls σ.store r.store r.store σ.cache r.store σ.cache hi1 hi1 hm1 h01
+      (step_refl now _) (step_refl now _) h.cache hc',
+    mutesI_linearizable msOf env now ls σ.store r.store r.store σ.cache σ.cache h.idx hi1 hi1 h.mi hm1 hm1 h01
+      (step_refl now _) (set_keepsActive env ret maxSil now ls σ.store inp newId big r h.idx hfresh hstart hset)
+      (keepsActive_refl env now ls _) h.cache⟩
+
 /-! ### the seeded discipline, and why `KeepsActive` is needed -/
 
 private def envI : Env := { re := fun _ _ => false, reOk := fun _ => true, nameOk := fun n => n ≠ "" }
